@@ -705,7 +705,7 @@ def chunks(tier, seed):
         for case in g(rng, tier):
             n += 1
             # a sample also goes through the installed console scripts (thorough tier)
-            if tier == "thorough" and n % 9 == 0:
+            if (tier == "thorough" or os.environ.get("C16_SCRIPTS")) and n % 9 == 0:
                 case["script"] = True
             buf.append(case)
             if len(buf) >= size:
